@@ -207,6 +207,7 @@ Definition gov_apply (c : chain) (m : gov_msg) : option chain :=
   | GSend from to co =>
       (* no fee gas meter in the EndBlocker's context: the router consumes no message fee *)
       if is_zero co then None
+      else if N.eqb to collector then None      (* bank MsgSend: the fee collector is a blocked address *)
       else match exec_move (bal (ch_st c)) {| mv_from := from; mv_to := to; mv_coins := co |} with
            | Some b => Some {| ch_cfg := cfg; ch_st := with_bal (ch_st c) b |}
            | None => None
